@@ -311,6 +311,12 @@ class qset(MutableSequenceSet[_T], abcs.Copyable):
         # and it is fast to compute.
         _ = slicerange(len(self), slice_, values)
         leaving = self[slice_]
+        arriving = set()
+        for v in values:
+            # The new values must be distinct from each other, too.
+            if v in arriving:
+                raise Emsg.DuplicateValue(v)
+            arriving.add(v)
         # Check for duplicates.
         # Any value that we already contain, and is not leaving with the others
         # is a duplicate.
